@@ -23,7 +23,7 @@ LEVEL_NOTE = ("In-process stack, and the DBOS server stack with the ENGINE SUBST
               "thread stress on one SQLite file is reported as information only.")
 DESIGN_REF = "§5 C26"
 RULE = "case = (program, idle_timeout, send/restart schedule, yield seed) or (lifecycle script); distinct = hash of the scenario; non-trivial = >=1 release and >=1 send at/after it"
-REQUIRED_REACH = ["scenario", "release_snapshot_eval", "send_at_release_instant", "concurrent_senders", "restart_scenario", "conservation_eval", "slow_store", "stack_inproc", "stack_dbos_sub", "wake_scenario", "waiter_timeout_inside_release_round_trip", "lifecycle_script", "lifecycle_stalled_releaser",
+REQUIRED_REACH = ["scenario", "release_snapshot_eval", "send_at_release_instant", "concurrent_senders", "restart_scenario", "conservation_eval", "slow_store", "stack_inproc", "stack_dbos_sub", "two_replicas", "wake_scenario", "waiter_timeout_inside_release_round_trip", "lifecycle_script", "lifecycle_stalled_releaser",
                   "lifecycle_released_period", "lifecycle_crash_timeout_takeover"]
 ASSUMPTIONS = ["an event whose send_event call raised is not counted as sent (the caller was told)"]
 
@@ -43,7 +43,8 @@ def gen_case(seed):
     return {"seed": seed, "spec": spec, "keys": keys, "I": rnd.choice([0.5, 1, 2]), "offsets": [rnd.choice([-0.2, -0.05, -0.001, 0, 0, 0.001, 0.25]) for _ in keys],
             "store_latency": rnd.choice([None, None, 0.02, 0.1, 0.3]),
             "concurrent": rnd.random() < 0.5, "dup": rnd.random() < 0.3, "yield_seed": rnd.choice([None, seed]), "restart": rnd.random() < 0.35,
-            "restart_off": rnd.choice([-0.25, 0.0, 0.001, 0.3]), "store": "sqlite", "stack": rnd.choice(["inproc", "inproc", "dbos_sub"])}
+            "restart_off": rnd.choice([-0.25, 0.0, 0.001, 0.3]), "store": "sqlite", "stack": rnd.choice(["inproc", "inproc", "dbos_sub"]),
+            "replicas": rnd.choice([1, 2]), "via": [rnd.randrange(2) for _ in range(8)]}
 
 
 def run_inproc(case, acc):
@@ -60,7 +61,8 @@ def run_inproc(case, acc):
             return getattr(_acc, n)
 
         def violation(self, sig, what, w):
-            _v({**sig, "stack": stack} if stack != "inproc" else sig, (f"[{stack} stack] " if stack != "inproc" else "") + what, w)
+            extra = {"stack": stack, "replicas": case.get("replicas", 1)} if stack != "inproc" else {}
+            _v({**sig, **extra}, (f"[{stack} stack x{case.get('replicas', 1)}] " if stack != "inproc" else "") + what, w)
 
     acc = _A()
     acc.hit("stack_" + stack)
@@ -82,8 +84,14 @@ def run_inproc(case, acc):
     if case["restart"]:
         restarts = [max(0.1, sends[-1]["at"] + case["restart_off"])] if case["restart_off"] < 0 else [max(0.1, sends[0]["at"] - case["restart_off"])]
         # after a restart every not yet delivered answer is (re)sent shortly after start()
+    replicas = case.get("replicas", 1) if stack == "dbos_sub" else 1
+    if replicas > 1:
+        # two server replicas over one store / lifecycle table / engine; every send goes through one of them
+        for i, sd in enumerate(sends):
+            sd["via"] = case["via"][i % len(case["via"])]
+        acc.hit("two_replicas")
     scn = {"spec": case["spec"], "idle_timeout": I, "sends": sends, "restarts": restarts, "yield_seed": case["yield_seed"], "store": "sqlite", "end": 300.0,
-           "store_latency": case.get("store_latency"), "stack": stack}
+           "store_latency": case.get("store_latency"), "stack": stack, "replicas": replicas}
     if case.get("store_latency"):
         acc.hit("slow_store")
     obs, cs = ic.run_scenario(scn)
@@ -135,8 +143,10 @@ def run_inproc(case, acc):
         t_last = max(restarts)
         sent_last = {r["uid"] for r in cs.tr.rec.of("send_ok") if r["t"] >= t_last}
         lost = [u for u in lost if u in sent_last]
+    to_finished = {c[3] for c in obs.get("sub_calls", []) if c[0] == "send" and c[4]}
     if lost and not (final and final["status"] == "completed"):
-        acc.violation({"mech": "sent_event_never_processed", "restart": bool(restarts)},
+        acc.violation({"mech": "sent_event_never_processed", "restart": bool(restarts),
+                       **({"forwarded_to_finished_engine_run": bool(set(lost) & to_finished)} if stack != "inproc" else {})},
                       f"events {lost} were accepted by send_event but never reached the run; final handler {final}; releases {[r['t'] for r in obs['releases']]}", wit)
     errs = cs.tr.rec.of("send_error")
     if errs and not restarts:
@@ -145,7 +155,8 @@ def run_inproc(case, acc):
     # end state: without restarts every key was answered, so the run must have finished
     if not restarts and not errs:
         if final is None or final["status"] != "completed":
-            acc.violation({"mech": "run_did_not_finish_after_all_answers", "status": final and final["status"]},
+            acc.violation({"mech": "run_did_not_finish_after_all_answers", "status": final and final["status"],
+                           **({"forwarded_to_finished_engine_run": bool(to_finished)} if stack != "inproc" else {})},
                           f"all answers sent ({[s['at'] for s in sends]}; release due {t_rel}) but handler is {final}; loops={obs['loops_started']} releases={[r['t'] for r in obs['releases']]}", wit)
     if obs["releases"]:
         acc.sig(h({k: v for k, v in case.items() if k != "spec"}))
